@@ -225,8 +225,12 @@ pub fn any_lock_held_by_current() -> bool { unsafe { HELD_MASK[CUR] != 0 } }
 /// one reachability query per ordered pair of lock / queue classes: "class b was acquired (or blocked on) while
 /// class a was held".  The driver collects the satisfied ones over all harnesses and checks that the union
 /// graph has no cycle (C18).  Pairs never observed are constant-false and cost nothing.
+/// Only evaluated when the run asks for it (`EDGES_ON`, set by harnesses from the generated config when C18 is being
+/// checked): each cover is one more solver query on the harness's whole formula.
+pub static mut EDGES_ON: bool = false;
 #[cfg(kani)]
 pub fn edge_covers() {
+    if !unsafe { EDGES_ON } { return; }
     kani::cover!(unsafe { EDGE_MASK[2] } & (1u32 << 1) != 0, "EDGE 1->2");
     kani::cover!(unsafe { EDGE_MASK[3] } & (1u32 << 1) != 0, "EDGE 1->3");
     kani::cover!(unsafe { EDGE_MASK[4] } & (1u32 << 1) != 0, "EDGE 1->4");
